@@ -23,7 +23,11 @@ def gen_items(rng):
             kind = "missing"
         elif r < 0.25 and i > 0:
             kind = "overlap"
-        items.append({"before": rng.choice([None, True, True, False]), "after": rng.choice([None, True, True, False]), "tree": tree, "kind": kind})
+        item = {"before": rng.choice([None, True, True, False]), "after": rng.choice([None, True, True, False]), "tree": tree, "kind": kind}
+        # now and then the item's path comes into being only in its (succeeding) before hook
+        if kind == "ok" and item["before"] is True and rng.random() < 0.4:
+            item["late"] = True
+        items.append(item)
     return items
 
 
@@ -31,7 +35,7 @@ def run_case(ctx, rng, sb, items, nobash=False, abort_item=None):
     # materialise: missing items have no tree on disk; overlapping items point inside item 0
     real_items = []
     for it in items:
-        real_items.append({"before": it["before"], "after": it["after"], "tree": it["tree"] if it["kind"] == "ok" else None})
+        real_items.append({"before": it["before"], "after": it["after"], "tree": it["tree"] if it["kind"] == "ok" else None, "late": it.get("late", False)})
     case = walkrun.WalkCase(sb, real_items)
     for i, it in enumerate(items):
         if it["kind"] == "overlap" and real_items[0]["tree"] is not None:
@@ -50,6 +54,8 @@ def run_case(ctx, rng, sb, items, nobash=False, abort_item=None):
         if nobash:
             mi["before"] = None if it["before"] is None else False
             mi["after"] = None if it["after"] is None else False
+            if it.get("late"):
+                mi["tree"] = None       # the hook that would have prepared the path cannot be started: the item is missing
         model_items.append(mi)
     if abort_item is not None:
         # reference run to locate the read of the chosen file, then inject EIO there
